@@ -61,7 +61,7 @@ def gen_case(rng, pools):
         density = 10.0 ** rng.uniform(-13, -6)      # a tiny density is not a zero density
     m = rng.random()
     if m < 0.4:
-        mode, ws = "scalar", [nc.gen_wavelength(rng, pools)]
+        mode, ws = "scalar", [nc.gen_wavelength(rng, pools) if rng.random() < 0.7 else float(rng.randint(1, 12))]
     elif m < 0.55:
         mode, ws = "vector", [nc.gen_wavelength(rng, pools)]
     else:
@@ -87,7 +87,16 @@ def eval_real(pt, case):
     from periodictable import nsf
     ms, mix = weighted_formula(pt, case)
     ws = case["ws"]
-    warg = ws[0] if case["mode"] == "scalar" else nc.reused_array(ws)   # one buffer per length, refilled in place
+    if case["mode"] == "scalar":
+        # a scalar wavelength of any numeric scalar type is a scalar (Python float / int, numpy scalars)
+        w0 = ws[0]
+        kinds = [w0, np.float64(w0)]
+        if float(w0) == int(w0):
+            kinds += [int(w0), np.int64(int(w0))]
+        import zlib
+        warg = kinds[zlib.crc32(repr(case["materials"]).encode()) % len(kinds)]
+    else:
+        warg = nc.reused_array(ws)   # one buffer per length, refilled in place
     out = {}
     try:
         calc = nsf.neutron_composite_sld(ms, wavelength=warg)
@@ -99,7 +108,11 @@ def eval_real(pt, case):
     if res is not None and all(v is None for v in res):
         out["calc"] = "missing"
         res = None
-    direct = nsf.neutron_scattering(mix, density=case["density"], wavelength=warg)
+    try:
+        direct = nsf.neutron_scattering(mix, density=case["density"], wavelength=warg)
+    except Exception as e:  # noqa
+        out["direct_raises"] = "%s: %s" % (type(e).__name__, e)
+        direct = (None, None, None)
     n = len(ws)
     if direct[0] is None:
         out["direct"] = "missing"
@@ -119,8 +132,8 @@ def eval_real(pt, case):
             out["calc"] = ["zeros"] * n
             out["shape_ok"] = True
         elif case["mode"] == "scalar":
-            out["calc"] = [[float(re_), float(im_), float(inc_)]]
             out["shape_ok"] = all(np.ndim(v) == 0 for v in res)
+            out["calc"] = [[float(np.ravel(v)[0]) for v in (re_, im_, inc_)]]
         else:
             out["shape_ok"] = all(np.shape(v) == (n,) for v in res)
             cols = [np.broadcast_to(np.asarray(v, dtype=float), (n,)) for v in res]
@@ -180,6 +193,8 @@ def judge(run, pt, case, replies):
     n = len(case["ws"])
     N, tot = out["N"], out["tot"]
     # ---- the property on the real code
+    if out.get("direct_raises"):
+        run.violation("the direct calculation on the weighted sum raises %s" % out["direct_raises"], case, site="direct-raises")
     if out.get("second"):
         run.violation("a second calculator built from derived materials (2.5*m, m += H2O) disagrees with the direct "
                       "calculation: %s" % out["second"], case, site="second-calculator")
